@@ -58,6 +58,12 @@ RULE = ("cases = scenario templates over a catalogue of 44 class specifications 
         "of the bodies annotate with those names as STRINGS; decorators and make_class calls over shared these/attrs "
         "dicts and shared counting attrs carry field_transformers that observe (alias None-ness, inherited, kw_only, "
         "default) or act on (alias) what they are handed; "
+        "(0h) twins in ONE module with one qualname whose generated scripts have the same length but differ (one letter "
+        "of a field name), inspect.getsource of every generated method in the fingerprint; a method with a __class__ "
+        "cell written in A's body and the very function object re-used in the body of the same-qualname B (A.who() is "
+        "A re-observed at the end); RETRY: a definition rejected late (cache_hash without hash / with init=False, frozen "
+        "+ on_setattr, own __setattr__ + hooks) then a valid decorator on the SAME class object (harness-only `obj`), "
+        "which must come out like a fresh class; "
         "(5) shared counting attrs (also re-declared base fields) with @ca.validator/@ca.default between definitions; (6) fields over shared "
         "argument containers with appends between definitions; (7) random mixtures with histories up to 6 steps. "
         "non-trivial = the history contains at least one definition that succeeded; distinct = distinct JSON case")
@@ -601,11 +607,20 @@ def t_twin(rng):
     if rng.random() < 0.15:
         own[rng.choice(["ownEq", "ownLt", "ownRepr", "ownInit"])] = True
 
+    rename = rng.random() < 0.35
+    who = rng.choice([(None, None), ("def", "reuse"), ("def", "def"), ("def", "reuse")])
+
     def twin(variant, near=False):
         c = {"base": base, "fields": copy.deepcopy(fields), "own": dict(own), "hasPre": False, "hasPost": False,
              "x": {"name": "C", "variant": variant, "fieldApi": rng.choice(["ib", "field"])}}
         if rng.random() < 0.3:
             c["x"]["module"] = "c16mod" + str(variant)          # same qualname, another module
+        if variant and rename:
+            # same module, same qualname, scripts of the same LENGTH that differ (one letter of one field name)
+            f = rng.choice(c["fields"])
+            f["name"] = {"x": "p", "y": "q", "z": "r", "w": "v"}[f["name"]]
+            c["x"].pop("module", None)
+        c["x"]["who"] = who[0] if not variant else who[1]
         if near:
             f = rng.choice(c["fields"])
             what = rng.choice(["eqKey", "orderKey", "reprFn", "conv", "nValid", "hook"])
@@ -850,6 +865,36 @@ def t_thread(rng):
     return case
 
 
+LATE_REJECTIONS = [      # (decorator arguments, class must have an own __setattr__) -- all raise after the builder exists
+    (A("attrS", cacheHash=True), False), (A("attrS", frozen=True, onSetattr="convert"), False),
+    (A("attrS", autoDetect=True, onSetattr="custom"), True), (A("attrS", init="f", cacheHash=True, hash="t"), False),
+    (A("define", slots=False, cacheHash=True), False), (A("define", slots=False, frozen=True, onSetattr="validate"), False),
+    (A("attrS", cacheHash=True, eq="f"), False), (A("define", onSetattr="custom"), True),
+]
+RETRY_DECOS = [A("attrS"), A("attrS"), A("define", slots=False), A("attrS", autoDetect=True), A("attrS", slots=True), A("define"),
+               A("attrS", frozen=True), A("define", slots=False, kwOnly=True)]
+
+
+def t_retry(rng):
+    """a definition that is rejected LATE (cache_hash without hash, frozen + on_setattr, own __setattr__ + hooks,
+    cache_hash with init=False), then a valid retry on the very same class object: it must come out like a fresh one"""
+    bad, needs_setattr = copy.deepcopy(rng.choice(LATE_REJECTIONS))
+    good = copy.deepcopy(rng.choice(RETRY_DECOS))
+    legacy = good["api"] == "attrS" and rng.random() < 0.7
+    fields = [F(n, not legacy, default=(i > 0 and rng.random() < 0.4), conv=rng.random() < 0.4, nValid=rng.choice([0, 1]))
+              for i, n in enumerate(["x", "y", "z"][:rng.choice([1, 2, 3])])]
+    for i in range(1, len(fields)):
+        fields[i]["hasDefault"] = fields[i]["hasDefault"] or fields[i - 1]["hasDefault"]
+    c = C(fields, base=rng.choice(["object", "object", "plain", "mutableAttrS"]), ownSetattr=needs_setattr)
+    c["x"] = {"name": "R", "obj": "r", "fieldApi": "ib"}
+    steps = [defDeco(0, copy.deepcopy(c))]
+    if rng.random() < 0.3:
+        steps.append(defDeco(0, copy.deepcopy(c)))          # rejected twice
+    if rng.random() < 0.3:
+        steps.append(rng.choice(USER_OPS))
+    return scenario([bad, good], steps, defDeco(1, copy.deepcopy(c)), cas=[CA()], tpl="retry")
+
+
 def t_env(rng):
     """a class defined while validators are switched off (and used after they are switched on again)"""
     d = _rand_deco(rng) if rng.random() < 0.7 else copy.deepcopy(rng.choice(TWIN_DECOS))
@@ -867,12 +912,13 @@ def t_env(rng):
 TEMPLATES.insert(6, t_env)
 TEMPLATES.insert(3, t_use)
 TEMPLATES.insert(9, t_thread)
+TEMPLATES.insert(5, t_retry)
 
 
 def _gen_cases(tier, rng):
     # 0. layout twins first (library-global state keyed by field layout needs no shared decorator or container)
     for i in range(1000 if tier == "quick" else 40000):
-        yield (t_twin, t_siblings, t_pool, t_lists, t_env, t_use, t_thread)[i % 7](rng)
+        yield (t_twin, t_siblings, t_pool, t_lists, t_env, t_use, t_thread, t_retry, t_twin)[i % 9](rng)
     # 1. every (decorator, A) of the catalogue through one shared decorator object, B from the sensitive set
     if tier == "quick":
         order = [(d, a) for d in DECO_NAMES for a in CAT]
@@ -901,11 +947,15 @@ def gen_cases(tier, rng):
         elif i % 10 == 3:
             c = with_threads(c, rng)
         # string annotations naming what the module binds / rebinds right before each body (harness-only)
+        by_obj = {}
         for st in list(c["steps"]) + [c["target"]]:
             if isinstance(st, dict) and "defDeco" in st:
                 x = st["defDeco"]["c"].setdefault("x", {})
-                if "strAnn" not in x and rng.random() < 0.35:
-                    x["strAnn"] = True
+                if "strAnn" not in x:
+                    if x.get("obj") is not None:                 # the same class object: one body
+                        x["strAnn"] = by_obj.setdefault(x["obj"], rng.random() < 0.35)
+                    elif rng.random() < 0.35:
+                        x["strAnn"] = True
         yield c
 
 
